@@ -32,6 +32,14 @@ pub fn gen(tier: &str, seed: u64, emit: &mut dyn FnMut(String)) {
         for prefix in [1u8, 2, 3, 0, 15] { emit(format!("TSB {}", hex(&enc_ts(prefix, v)))); }
     }
     for _ in 0..(if big { 2_000_000 } else { 30000 }) { emit(format!("TSB {}", hex(&rng.bytes(5)))); }
+    // the same from buffers LONGER than the five bytes a timestamp occupies (6..=16 bytes): the rest must not matter
+    for _ in 0..(if big { 200_000 } else { 6000 }) {
+        let v = match rng.below(4) { 0 => 0, 1 => (1u64 << 33) - 1, 2 => 1u64 << rng.below(33), _ => rng.below(1 << 33) };
+        let mut b = enc_ts(*rng.pick(&[1u8, 2, 3, 0, 15]), v).to_vec();
+        if rng.chance(1, 4) { let k = rng.below(5) as usize; b[k] ^= 1 << rng.below(8); }
+        let extra = rng.range(1, 11) as usize; let t = rng.bytes(extra); b.extend(t);
+        emit(format!("TSB {}", hex(&b)));
+    }
     // wrap detection: (earlier, distance) by boundary class and at random
     let es: Vec<u64> = vec![0, 1, (1 << 32) - 1, 1 << 32, (1 << 32) + 1, M33 - 2, M33 - 1];
     let ds: Vec<u64> = vec![0, 1, 2, (1 << 32) - 1, 1 << 32, (1 << 32) + 1, M33 - 1];
